@@ -194,6 +194,89 @@ fn lost_in(needle: &[String], hay: &[String]) -> Vec<usize> {
     lost
 }
 
+
+// ---------------------------------------------------------------------------------------------
+// tie of the ported printer (Model/CstPrint.lean): every text that is formatted is logged with the outputs of the real
+// `pretty_print_cst` (FNV-1a hashes) so that the Lean driver can format the same text and the check can compare exactly.
+mod port {
+    use std::sync::Mutex;
+    pub static LOG: Mutex<Vec<String>> = Mutex::new(Vec::new());
+
+    pub fn fnv64(s: &str) -> String {
+        let mut h: u64 = 0xcbf29ce484222325;
+        for b in s.bytes() {
+            h = (h ^ b as u64).wrapping_mul(0x100000001b3);
+        }
+        format!("{h:016x}")
+    }
+
+    pub fn hex(s: &str) -> String {
+        if s.is_empty() {
+            return "-".into();
+        }
+        let mut o = String::with_capacity(s.len() * 2);
+        for b in s.bytes() {
+            o.push_str(&format!("{b:02x}"));
+        }
+        o
+    }
+
+    pub fn classes(s: &str) -> String {
+        let mut cs: Vec<char> = s.chars().filter(|c| !c.is_ascii()).collect();
+        cs.sort();
+        cs.dedup();
+        if cs.is_empty() {
+            return "-".into();
+        }
+        cs.iter()
+            .map(|&c| format!("{}:{}{}", c as u32, unicode_ident::is_xid_start(c) as u8, unicode_ident::is_xid_continue(c) as u8))
+            .collect::<Vec<_>>()
+            .join(",")
+    }
+
+    /// display width the `pretty` crate stores for a non-ASCII text (read back from the document it builds)
+    fn render_len(t: &str) -> usize {
+        use pretty::{Arena, Doc, DocAllocator};
+        let a: Arena<'_, ()> = Arena::new();
+        let d = a.text(t.to_string());
+        match &*d.1 {
+            Doc::RenderLen(n, _) => *n,
+            _ => t.len(),
+        }
+    }
+
+    /// `i:w` for every raw token with non-ASCII text
+    pub fn widths(src: &str) -> String {
+        let toks = mimium_lang::compiler::parser::tokenize(src);
+        let v: Vec<String> = toks
+            .iter()
+            .enumerate()
+            .filter_map(|(i, t)| {
+                let tx = t.text(src);
+                if tx.is_ascii() { None } else { Some(format!("{}:{}", i, render_len(tx))) }
+            })
+            .collect();
+        if v.is_empty() { "-".into() } else { v.join(",") }
+    }
+
+    pub fn record(id: &str, src: &str, outs: &[(usize, usize, String)]) {
+        if outs.is_empty() {
+            return;
+        }
+        let src2 = src.to_string();
+        let w = std::panic::catch_unwind(move || widths(&src2)).unwrap_or_else(|_| "-".into());
+        let row = serde_json::json!({"origin": "port", "id": id, "hex": hex(src), "classes": classes(src), "widths": w,
+            "outs": outs.iter().map(|(w, i, h)| serde_json::json!([w, i, h])).collect::<Vec<_>>()});
+        LOG.lock().unwrap().push(row.to_string());
+    }
+
+    pub fn flush(out: &mut impl std::io::Write) {
+        for l in LOG.lock().unwrap().drain(..) {
+            writeln!(out, "{}", l).unwrap();
+        }
+    }
+}
+
 fn fmt(src: &str, path: &Option<PathBuf>, w: usize) -> Result<Result<String, ()>, ()> {
     let s = src.to_string();
     let p = path.clone();
@@ -219,6 +302,17 @@ fn classes(p: &Parsed, src: &str) -> Vec<&'static str> {
             c.push(x)
         }
     };
+    let is_comment = |k: TokenKind| matches!(k, TokenKind::SingleLineComment | TokenKind::MultiLineComment);
+    // a comment in front of the first token on its line (leading trivia of the first syntax token): printed twice
+    if pre.get_leading_trivia(0, &toks).iter().any(|t| is_comment(t.kind)) {
+        add("first-line-comment", &mut c);
+    }
+    let has_comments = |token_index: usize| -> bool {
+        match pre.token_indices.iter().position(|&x| x == token_index) {
+            Some(i) => pre.get_leading_trivia(i, &toks).iter().chain(pre.get_trailing_trivia(i, &toks).iter()).any(|t| is_comment(t.kind)),
+            None => false,
+        }
+    };
     while let Some(id) = stack.pop() {
         if let GreenNode::Internal { kind, children, .. } = arena.get(id) {
             let child_kind = |i: usize| -> Option<SyntaxKind> { children.get(i).and_then(|&ch| arena.kind(ch)) };
@@ -233,6 +327,13 @@ fn classes(p: &Parsed, src: &str) -> Vec<&'static str> {
                 SyntaxKind::MatchExpr | SyntaxKind::MatchArm | SyntaxKind::MatchArmList => add("match", &mut c),
                 SyntaxKind::RecordPattern => add("record-pattern", &mut c),
                 SyntaxKind::RecordType => add("record-type", &mut c),
+                SyntaxKind::TupleType => {
+                    // `((float), float)`: the parentheses of a parenthesised element are direct children of the TupleType node
+                    let opens = (0..children.len()).filter(|&i| child_tok(i) == Some(TokenKind::ParenBegin)).count();
+                    if opens >= 2 {
+                        add("paren-type-in-tuple-type", &mut c);
+                    }
+                }
                 SyntaxKind::ParamList => {
                     for i in 0..children.len() {
                         if matches!(child_kind(i), Some(SyntaxKind::TypeAnnotation) | Some(SyntaxKind::ParamDefault)) {
@@ -277,6 +378,16 @@ fn classes(p: &Parsed, src: &str) -> Vec<&'static str> {
                     }
                     if elems == 1 && commas >= 1 {
                         add("one-tuple", &mut c);
+                    }
+                    // the comma of `(x,)` carries a comment (print_tuple_expr skips the comma token with its trivia)
+                    if elems == 1 && commas == 1 {
+                        for &ch in children.iter() {
+                            if let GreenNode::Token { token_index, .. } = arena.get(ch) {
+                                if toks[*token_index].kind == TokenKind::Comma && has_comments(*token_index) {
+                                    add("one-tuple-comma-comment", &mut c);
+                                }
+                            }
+                        }
                     }
                 }
                 SyntaxKind::LambdaExpr => {
@@ -324,6 +435,7 @@ fn judge_value(id: &str, origin: &str, src: &str, path: &Option<PathBuf>, config
     let mut fails = vec![];
     let mut outs: Vec<String> = vec![];
     let mut dup_comments = 0usize;
+    let mut port_outs: Vec<(usize, usize, String)> = vec![];
     for &(w, ind) in configs {
         set_indent(ind);
         macro_rules! fail {
@@ -333,15 +445,18 @@ fn judge_value(id: &str, origin: &str, src: &str, path: &Option<PathBuf>, config
         }
         let o = match fmt(src, path, w) {
             Err(()) => {
+                port_outs.push((w, ind, "PANIC".into()));
                 fail!("fmt-panic", String::new());
                 continue;
             }
             Ok(Err(())) => {
+                port_outs.push((w, ind, "ERR".into()));
                 fail!("fmt-error", String::new());
                 continue;
             }
             Ok(Ok(o)) => o,
         };
+        port_outs.push((w, ind, port::fnv64(&o)));
         if !outs.contains(&o) {
             outs.push(o.clone());
         }
@@ -386,6 +501,7 @@ fn judge_value(id: &str, origin: &str, src: &str, path: &Option<PathBuf>, config
             Err(()) => fail!("not-idempotent", "second formatting panicked".to_string()),
         }
     }
+    port::record(id, src, &port_outs);
     let mut j = serde_json::json!({
         "id": id, "origin": origin, "bytes": src.len(), "ntok": base.ntok, "ncom": base.comments.len(),
         "classes": classes(&base, src), "distinct_outputs": outs.len(), "configs": configs.len(),
@@ -1654,9 +1770,37 @@ fn main() {
                 Err(()) => writeln!(out, "## formatter: panic").unwrap(),
             }
         }
+        Some("fmt") => {
+            // fmt: stdin JSON lines {"id","src","configs"?}: only format (no judging), log for the port comparison
+            let stdin = std::io::stdin();
+            for line in stdin.lock().lines() {
+                let line = line.unwrap();
+                if line.trim().is_empty() {
+                    continue;
+                }
+                let v: serde_json::Value = serde_json::from_str(&line).unwrap();
+                let id = v["id"].as_str().unwrap_or("text").to_string();
+                let src = v["src"].as_str().unwrap().to_string();
+                let cfgs: Vec<(usize, usize)> = match v["configs"].as_array() {
+                    Some(a) => a.iter().map(|c| (c[0].as_u64().unwrap() as usize, c[1].as_u64().unwrap() as usize)).collect(),
+                    None => all_configs(),
+                };
+                let mut po = vec![];
+                for (w, ind) in cfgs {
+                    set_indent(ind);
+                    po.push((w, ind, match fmt(&src, &None, w) {
+                        Ok(Ok(o)) => if v["show"].as_bool().unwrap_or(false) { o } else { port::fnv64(&o) },
+                        Ok(Err(())) => "ERR".into(),
+                        Err(()) => "PANIC".into(),
+                    }));
+                }
+                port::record(&id, &src, &po);
+            }
+        }
         _ => {
             eprintln!("usage: c14 files <root> <k> <n> <seed> <nmut> | texts | gen <seed> <n> | gaps-gen <seed> <n> | gaps-files <root> <k> <n> <seed> <maxgaps> | gaps-texts <seed> <maxgaps> | docs <seed> <n> | nlrule <seed> <n> | show <w> <ind>");
             std::process::exit(2);
         }
     }
+    port::flush(&mut out);
 }
